@@ -264,3 +264,148 @@ func HarnessC12_builder() {
 	p.RequireSandboxOnIFrame()
 	verifAssert(p.requireSandboxOnIFrame != nil && len(p.requireSandboxOnIFrame) == 0, "C12-builder-empty")
 }
+
+// ---- C02 / C07: generic attribute filtering ---------------------------------------
+
+// ruleList builds one of the rule-list shapes: 0 [R], 1 [R,R'], 2 [nil], 3 [R,nil].
+func ruleList(tag string, shape int) []attrPolicy {
+	switch shape {
+	case 0:
+		return []attrPolicy{{regexp: nondetRegexp(tag + ".re")}}
+	case 1:
+		return []attrPolicy{{regexp: nondetRegexp(tag + ".re")}, {regexp: nondetRegexp(tag + ".re")}}
+	case 2:
+		return []attrPolicy{{}}
+	default:
+		return []attrPolicy{{regexp: nondetRegexp(tag + ".re")}, {}}
+	}
+}
+
+// specAccepts is written from the statement: some rule without pattern, or
+// some rule whose pattern matches the (decoded) value.
+func specAccepts(rules []attrPolicy, val string) bool {
+	acc := false
+	for _, r := range rules {
+		if r.regexp == nil {
+			acc = true
+		} else {
+			acc = verifOr(acc, r.regexp.MatchString(val))
+		}
+	}
+	return acc
+}
+
+func HarnessAttrs_generic() {
+	p := &Policy{}
+	p.init()
+	e := verifParam("tableEntries")
+	aps := map[string][]attrPolicy{}
+	var keys []string
+	for i := 0; i < e; i++ {
+		k := nondetString("aps.key")
+		for _, o := range keys {
+			verifAssume(k != o)
+		}
+		keys = append(keys, k)
+		aps[k] = ruleList("aps", nondetIntRange("aps.shape", 0, 3))
+	}
+	keys = nil
+	for i := 0; i < e; i++ {
+		k := nondetString("glob.key")
+		for _, o := range keys {
+			verifAssume(k != o)
+		}
+		keys = append(keys, k)
+		p.globalAttrs[k] = ruleList("glob", nondetIntRange("glob.shape", 0, 3))
+	}
+	el := pickEl("el")
+	n := nondetIntRange("in.n", 1, verifParam("maxAttrs"))
+	in := symAttrs(n)
+	noteAttrs("in", in)
+	verifNote("el", el)
+	out := p.sanitizeAttrs(el, in, aps)
+	noteAttrs("out", out)
+
+	ok := true
+	check := func(c bool, id string) {
+		verifNoteBool("c:"+id, c)
+		ok = verifAnd(ok, c)
+	}
+	allowed := make([]bool, len(in))
+	all := true
+	for j, a := range in {
+		allowed[j] = verifOr(specAccepts(aps[a.Key], a.Val), specAccepts(p.globalAttrs[a.Key], a.Val))
+		verifNoteBool("allowed"+itoa(j), allowed[j])
+		all = verifAnd(all, allowed[j])
+	}
+	// C02: every emitted attribute is an allowed input attribute, unchanged
+	for _, o := range out {
+		from := false
+		for j, a := range in {
+			from = verifOr(from, verifAnd(verifAnd(o.Key == a.Key, o.Val == a.Val), allowed[j]))
+		}
+		check(from, "C02-emitted-attribute-allowed")
+	}
+	// C07: if every input attribute is allowed the list passes unchanged; in
+	// general the allowed ones pass in order
+	same := len(out) == len(in)
+	if same {
+		eq := true
+		for j := range in {
+			eq = verifAnd(eq, verifAnd(out[j].Key == in[j].Key, out[j].Val == in[j].Val))
+		}
+		check(verifImplies(all, eq), "C07-conforming-list-unchanged")
+	} else {
+		check(verifNot(all), "C07-conforming-list-unchanged")
+	}
+	verifAssert(ok, "ATTRS")
+	verifReach("ATTRS-reach")
+}
+
+// HarnessAttrs_data: data-* attributes.
+func HarnessAttrs_data() {
+	p := &Policy{}
+	p.init()
+	p.AllowDataAttributes()
+	key := nondetString("in.key")
+	verifAssume(verifMatch(`^[^\s/>=A-Z\x00]+$`, key)) // A1
+	val := nondetString("in.val")
+	in := []html.Attribute{{Key: key, Val: val}}
+	noteAttrs("in", in)
+	out := p.sanitizeAttrs("div", in, map[string][]attrPolicy{})
+	noteAttrs("out", out)
+	// HTML standard: a custom data attribute is "data-" followed by at least
+	// one character, with no ASCII upper case (other restrictions are A1)
+	wellFormed := verifMatch(`^data-[^A-Z]+$`, key)
+	if len(out) > 0 {
+		verifReach("DATA-kept")
+		verifAssert(verifAnd(wellFormed, verifAnd(out[0].Key == key, out[0].Val == val)), "C02-data-attribute-wellformed")
+	}
+}
+
+// HarnessAttrs_matchRegex: rules of all matching element patterns are merged
+// (C07: rules are additive).
+func HarnessAttrs_matchRegex() {
+	p := &Policy{}
+	p.init()
+	k := nondetString("key")
+	r1, r2, r3 := nondetRegexp("rule1"), nondetRegexp("rule2"), nondetRegexp("rule3")
+	e1, e2 := nondetRegexp("elre1"), nondetRegexp("elre2")
+	p.elsMatchingAndAttrs[e1] = map[string][]attrPolicy{k: {{regexp: r1}, {regexp: r2}}}
+	p.elsMatchingAndAttrs[e2] = map[string][]attrPolicy{k: {{regexp: r3}}}
+	name := nondetString("name")
+	aps, matched := p.matchRegex(name)
+	m1, m2 := e1.MatchString(name), e2.MatchString(name)
+	verifAssert(matched == verifOr(m1, m2), "C07-matched-iff-some-pattern")
+	has := func(r interface{}) bool {
+		for _, ap := range aps[k] {
+			if verifSameObject(ap.regexp, r) {
+				return true
+			}
+		}
+		return false
+	}
+	h1, h2, h3 := has(r1), has(r2), has(r3)
+	verifAssert(verifAnd(verifAnd(verifImplies(m1, h1), verifImplies(m1, h2)), verifImplies(m2, h3)), "C07-pattern-rules-merged")
+	verifAssert(verifAnd(verifAnd(verifImplies(h1, m1), verifImplies(h2, m1)), verifImplies(h3, m2)), "C02-no-rules-from-non-matching-patterns")
+}
